@@ -386,7 +386,9 @@ class C09(E2ECheck):
         'types': ['upload', 'upload', 'download', 'download', 'copy'],
         'ntransfers': (1, 2), 'subs': {'min': 1, 'max': 2, 'size': True},
         'body_scripts': True, 'stream_scripts': True, 'agg': True,
-        'ends': ['shutdown'],
+        'fault_sites': ['s3.get_object'],
+        'fault_excs': ['retryable:0', 'retryable:2', 'retryable:4'],
+        'max_faults': 2, 'ends': ['shutdown'],
     }
     rule = ('cases = uploads/downloads/copies with recording subscribers x '
             'body scripts (rewinds, signing reads with progress suppressed, '
